@@ -101,6 +101,11 @@ def digit_stream(v):
     return None
 
 
+def _digit_table(table, amap):
+    """A 256-byte translation table that maps every alphabet character to its digit value."""
+    return isinstance(table, bytes) and len(table) == 256 and all(table[c] == d for c, d in amap.items())
+
+
 def check_base58(ctx, o=lambda k: "C07.%d" % k):
     """All Base58 / Base58Check obligations; other properties whose containers are Base58Check strings (WIF, extended keys) run them
     under their own obligation id."""
@@ -153,12 +158,25 @@ def check_base58(ctx, o=lambda k: "C07.%d" % k):
             return strip1
         return None
 
+    translated = []
+
     def is_value(n0):
         n0 = tm.subst(n0, norm_strip)
         look = lambda b_: T("lookup", (tm.freeze(amap), b_), tm.ANY)
         forms = [T("sum", (tm.mapt(tm.mul([look(tm.bv(0, tm.INT)), tm.binop("pow", 58, T("bvi", (0,), tm.INT))]), T("enumerate", (T("rev", (strip1,), tm.BYTES),), tm.LIST)),), tm.INT)]
         if any(tm.veq(n0, f) for f in forms):
             return True
+        # the same sum over digits obtained with bytes.translate through a 256-entry table that agrees with the digit map on
+        # the alphabet (what the table holds elsewhere does not matter once foreign characters are refused -- C07.3)
+        if isinstance(n0, T) and n0.op == "sum":
+            m = rules.unfz(n0.args[0])
+            if isinstance(m, T) and m.op == "map" and m.args[2] is None and tm.veq(rules.unfz(m.args[0]), tm.mul([tm.bv(0, tm.INT), tm.binop("pow", 58, T("bvi", (0,), tm.INT))])):
+                it = rules.unfz(m.args[1])
+                it = rules.unfz(it.args[0]) if isinstance(it, T) and it.op == "enumerate" else None
+                it = rules.unfz(it.args[0]) if isinstance(it, T) and it.op == "rev" else None
+                if isinstance(it, T) and it.op == "m:translate" and tm.veq(rules.unfz(it.args[0]), strip1) and it.args[2] == b"" and _digit_table(it.args[1], amap):
+                    translated.append(True)
+                    return True
         if isinstance(n0, T) and n0.op == "fold" and n0.args[2] == 0 and tm.veq(rules.unfz(n0.args[3]), strip1):
             var, step, d = n0.args[0], rules.unfz(n0.args[1]), n0.args[4]
             a_ = T("acc", (var, d), tm.INT)
@@ -173,6 +191,19 @@ def check_base58(ctx, o=lambda k: "C07.%d" % k):
     term1 = st[0] if st else None
     # alphabet enforcement: a raising lookup keyed by exactly the alphabet
     look_h = [h for h in s.hazards if h[0] == "KeyError" and isinstance(h[1], T) and h[1].op == "lookup" and rules.unfz(h[1].args[0]) == amap]
+    if not look_h and translated:
+        # table translation does not raise: foreign characters must be refused by an explicit test that what remains of the
+        # input after deleting the alphabet's characters is empty, dominating the return
+        def foreign_of(t):
+            t = rules.unfz(t)
+            return isinstance(t, T) and t.op == "m:translate" and t.args[1] is None and isinstance(t.args[2], bytes) and set(t.args[2]) == set(ALPHABET) and \
+                (tm.veq(rules.unfz(t.args[0]), data) or tm.veq(rules.unfz(t.args[0]), strip1))
+        for e in rets:
+            for f in rules.all_facts(e):
+                if isinstance(f, T) and f.op == "not" and isinstance(f.args[0], T) and f.args[0].op == "truth" and foreign_of(f.args[0].args[0]):
+                    look_h = [f]
+                if isinstance(f, T) and f.op == "cmp" and f.args[0] == "eq" and foreign_of(f.args[1]) and f.args[2] == b"":
+                    look_h = [f]
     R.check(o(3), "DOM", fd, "every character passes a raising lookup keyed by the alphabet", bool(look_h),
             "characters are not mapped through a raising lookup over exactly the alphabet (a defaulting/positional lookup accepts foreign characters)",
             example="a valid string with '0' or 'l' substituted in")
